@@ -388,6 +388,26 @@ pub fn events_two_adj() -> Alphabet {
     Alphabet::new("events-two-adj", evs, rules)
 }
 
+/// `events-penny` (C11): capital returns that leave a 30-day leg (one share bought at £1) or the pool within a
+/// fraction of a penny of zero cost, on both sides and exactly on the half-penny midpoints.
+pub fn events_penny() -> Alphabet {
+    let b = base();
+    let mut evs = vec![];
+    evs.push(buy(off(b, -40), "X", "100", "10", "0"));
+    evs.push(sell(off(b, 0), "X", "1", "10", "0"));
+    evs.push(buy(off(b, 5), "X", "1", "1", "0"));
+    for t in ["99.5", "100", "100.4", "100.5", "100.6", "101.5"] {
+        evs.push(capret(off(b, 7), "X", "100", t, "0"));
+    }
+    evs.push(accum(off(b, 8), "X", "100", "0.5", "0"));
+    evs.push(capret(off(b, 9), "X", "100", "899.5", "0"));
+    evs.push(capret(off(b, 9), "X", "100", "900.5", "0"));
+    evs.push(sell(off(b, 45), "X", "100", "11", "0"));
+    let mut rules = Rules::STRICT;
+    rules.one_adj = false;
+    Alphabet::new("events-penny", evs, rules)
+}
+
 /// `match1-same-day`: the `match1` events without the same-day exclusions of DESIGN §3 — SPLIT/UNSPLIT lines dated on
 /// days that also have purchases and sales (base+0, +1, +31). The tool's convention (a day's SPLIT/UNSPLIT comes
 /// before its trades; docs/spec.md, fix 9568b9a) is also R's.
